@@ -1365,7 +1365,7 @@ func (w *world) concurrent(rounds int) {
 		w.mp.VerifBlockArrival(gen.b)
 		w.best, w.settled = gen, true
 		// pre-generate everything from the single PRNG; the schedule is the only nondeterminism
-		const perAcc = 40
+		const perAcc = 120 // long lists: a removal or insertion moves many elements of the backing array
 		var subs [nAcc][]*types.Tx
 		for a := 0; a < nAcc; a++ {
 			perm := make([]int, perAcc)
@@ -1418,42 +1418,61 @@ func (w *world) concurrent(rounds int) {
 				}(a, half)
 			}
 		}
-		// the pool actor's goroutine: block notifications and, between them, what else the actor serves — removals,
-		// unconfirmed reports (which may insert an empty list under the read lock: never concurrent with a fetch in
-		// production, both run on the actor), existence queries, hash lists
+		// The pool actor's work, on two goroutines so that fetches really overlap removals and notifications ("submissions,
+		// block notifications and producer fetches run concurrently"): the *changing* requests — block notifications,
+		// removals of transactions handed out before — on one; the *reading* requests — fetches in a tight loop, hash
+		// lists, existence queries, unconfirmed reports — on the other. The reading requests stay on ONE goroutine: the
+		// unconfirmed report may insert an empty list while holding only the read lock, which is tolerable in production
+		// only because every other map reader runs on the actor too.
 		var flat []*types.Tx
 		for a := 0; a < nAcc; a++ {
 			flat = append(flat, subs[a]...)
 		}
+		stopRead := make(chan struct{})
+		var rd sync.WaitGroup
+		rd.Add(1)
+		go func() {
+			defer rd.Done()
+			for k := 0; ; k++ {
+				select {
+				case <-stopRead:
+					return
+				default:
+				}
+				// a producer's fetch: per account the nonces handed out are consecutive — strictly ascending, no
+				// transaction twice, none left out (whatever moment of the list the fetch saw)
+				txs, _ := w.mp.VerifGet(math.MaxUint32)
+				last := map[string]uint64{}
+				for _, t := range txs {
+					key := string(t.GetBody().GetAccount())
+					if l, ok := last[key]; ok && t.GetBody().GetNonce() != l+1 {
+						mu.Lock()
+						fetchBad = fmt.Sprintf("concurrent fetch: nonce %d follows %d in the run handed out for one account", t.GetBody().GetNonce(), l)
+						mu.Unlock()
+					}
+					last[key] = t.GetBody().GetNonce()
+				}
+				switch k % 8 {
+				case 1:
+					w.mp.VerifUnconfirmed(w.addr[k%nAcc])
+				case 3:
+					w.mp.VerifExist(flat[(k*7)%len(flat)].Hash)
+				case 5:
+					w.mp.VerifListHash(20)
+				}
+			}
+		}()
 		wg.Add(1)
 		go func() {
 			defer wg.Done()
 			k := 0
 			for _, b := range chain {
-				for j := 0; j < 40; j++ {
-					t := flat[(k*7+j*31)%len(flat)]
-					switch (k + j) % 5 {
-					case 4: // a producer's fetch (also served by the actor): per account consecutive nonces
-						txs, _ := w.mp.VerifGet(math.MaxUint32)
-						last := map[string]uint64{}
-						for _, t := range txs {
-							k := string(t.GetBody().GetAccount())
-							if l, ok := last[k]; ok && t.GetBody().GetNonce() != l+1 {
-								mu.Lock()
-								fetchBad = fmt.Sprintf("concurrent fetch: nonce %d follows %d", t.GetBody().GetNonce(), l)
-								mu.Unlock()
-							}
-							last[k] = t.GetBody().GetNonce()
-						}
-					case 0:
-						w.mp.VerifRemoveTx(t)
-					case 1:
-						w.mp.VerifUnconfirmed(w.addr[(k+j)%nAcc])
-					case 2:
-						w.mp.VerifExist(t.Hash)
-					default:
-						w.mp.VerifListHash(20)
-					}
+				for j := 0; j < 60; j++ {
+					// remove from the middle of a list (a producer dropping a transaction that failed): the list shifts its
+					// tail down in place
+					// (picked from what was submitted, not from a fetch: this goroutine must not walk the map while the reading
+					// one may be inserting an empty list under the read lock)
+					w.mp.VerifRemoveTx(flat[(k*7+j*31)%len(flat)])
 					k++
 				}
 				time.Sleep(100 * time.Microsecond)
@@ -1484,6 +1503,8 @@ func (w *world) concurrent(rounds int) {
 			}
 		}()
 		wg.Wait()
+		close(stopRead)
+		rd.Wait()
 		close(stopMon)
 		mon.Wait()
 		w.best = chain[len(chain)-1]
